@@ -886,4 +886,3 @@ func shortGuards(gs []*Cond) string {
 	}
 	return s
 }
-
